@@ -51,6 +51,11 @@ def configs(tier):
                   ops=BASIC + ("cancel_group", "hstart"), maxops=4 + b, props=("C08", "C07")))
     C.append(conf("flush_overlap", size=2, tpl=[T(num=2, ccb="async", ecb="async")], nh=2, hkinds=("flush",),
                   ops=BASIC + ("release_cb", "cancel", "hstart"), maxops=5, outs=("ret", "exc"), props=("C13", "C02", "C12")))
+    # the user cancels the task awaiting flush / gather_and_close / until_closed (gather's cancel-the-children rule,
+    # flush's suppress(CancelledError) swallowing the cancellation during its first wait)
+    C.append(conf("cancel_awaiter", size=1, tpl=[T(num=2, ecb="async"), T(kind="map", num=2, nc=1)], nh=2,
+                  hkinds=("flush", "gac", "until"), ops=BASIC + ("release_cb", "hstart", "hcancel", "cancel_group"), maxops=4 + b,
+                  props=("C08", "C13")))
     # C09 / C10: rejections, names
     C.append(conf("rejections", size=1, tpl=[T(num=1, gname="ga"), T(kind="map", num=1, nc=0), T(num=1, notcoro=True),
                                               T(kind="map", num=1, gname="ga"), T(num=1)], nh=1, hkinds=("gac",),
